@@ -1,4 +1,5 @@
 import ConduitModel.Model.Funnel
+import ConduitModel.Spec.FunnelMon
 import ConduitModel.Driver.Util
 
 /-
@@ -161,5 +162,61 @@ def funnelLine (line : String) : String :=
     | some t => runCase c t
     | none => "bad-op"
   | none => "bad-op"
+
+end Conduit.Driver
+
+/-! ## component `funnelmon`: `<case> ## <event log> => <result>` → `ok` | `fail: …` -/
+namespace Conduit.Driver
+open Conduit.Funnel
+
+def parseBracket (s : String) : Option (String × String) :=
+  -- "X12[body]" → ("X12", "body")
+  match s.splitOn "[" with
+  | [hd, tl] => if tl.endsWith "]" then some (hd, (tl.dropEnd 1).toString) else none
+  | _ => none
+
+def parseQ (s : String) : Option (Rec × Option Err × Nat) :=
+  match s.splitOn "!" with
+  | [r, rest] =>
+    match rest.splitOn "@" with
+    | [e, t] => do
+      let r ← parseRec r
+      let t ← t.toNat?
+      let e : Option Err := if e = "-" then none else some { script := e.toNat? }
+      pure (r, e, t)
+    | _ => none
+  | _ => none
+
+def parseEv (tok : String) : Option Ev := do
+  let (hd, body) ← parseBracket tok
+  match hd.toList with
+  | 'P' :: r => do pure (.pcall (← (String.ofList r).toNat?) (← parseRecs "," body))
+  | 'W' :: r => do pure (.write (← (String.ofList r).toNat?) (← parseRecs "," body))
+  | 'Q' :: r => do
+    let qs ← if body = "" then some [] else (body.splitOn ",").mapM parseQ
+    pure (.dlqw (← (String.ofList r).toNat?) qs)
+  | ['A'] => do
+    let ps ← if body = "" then some [] else (body.splitOn ",").mapM parsePos
+    pure (.sack ps)
+  | _ => none
+
+def parseLog (s : String) : Option (List Ev) :=
+  let body := (s.splitOn " => ").head!
+  let body := body.trimAscii.toString
+  if body = "" then some [] else (body.splitOn " ; ").mapM fun t => parseEv t.trimAscii.toString
+
+def funnelMonLine (line : String) : String :=
+  match line.splitOn " ## " with
+  | [cs, lg] =>
+    match parseCase cs, parseLog lg with
+    | some c, some log =>
+      match c.tree with
+      | some t =>
+        match Mon.run t c.scripts c.batches log with
+        | [] => "ok"
+        | vs => "fail: " ++ "; ".intercalate vs
+      | none => "bad-op"
+    | _, _ => "bad-op"
+  | _ => "bad-op"
 
 end Conduit.Driver
